@@ -67,11 +67,11 @@ func init() {
 		srt := app("sortedS", c, off, app("+", off, ln))
 		i := e.fresh("i!ss")
 		e.assume(implies(srt, and(
-			implies(app("<", r, ln), app(">=", app("so", sel(c, app("+", off, r))), app("so", x))),
-			fmt.Sprintf("(forall ((%s Int)) (! (=> (and (<= 0 %s) (< %s %s)) (< (so (select %s (+ %s %s))) (so %s))) :pattern ((select %s (+ %s %s)))))", i, i, i, r, c, off, i, x, c, off, i))))
+			implies(app("<", r, ln), app(">=", app("so", sel(c, app("sidx", off, r))), app("so", x))),
+			fmt.Sprintf("(forall ((%s Int)) (! (=> (and (<= 0 %s) (< %s %s)) (< (so (select %s (sidx %s %s))) (so %s))) :pattern ((select %s (sidx %s %s)))))", i, i, i, r, c, off, i, x, c, off, i))))
 		// consequence (lemma searchHit, proved in /verif/selftest/lemmas): on sorted input, if x occurs it is found
 		lo, hi := off, app("+", off, ln)
-		e.assume(implies(and(srt, app(">=", sel(app("bagS", c, lo, hi), x), "1")), and(app("<", r, ln), eq(sel(c, app("+", off, r)), x))))
+		e.assume(implies(and(srt, app(">=", sel(app("bagS", c, lo, hi), x), "1")), and(app("<", r, ln), eq(sel(c, app("sidx", off, r)), x))))
 		return Val{T: r}
 	}
 	externWrites["sort.SearchStrings"] = noWrites
@@ -109,7 +109,7 @@ func init() {
 				if j < len(isErr) && !isErr[j] {
 					continue
 				}
-				op := sel(sel(st.H(h), app("s_arr", args[1].T)), app("+", app("s_off", args[1].T), itoa(j)))
+				op := sel(sel(st.H(h), app("s_arr", args[1].T)), app("sidx", app("s_off", args[1].T), itoa(j)))
 				alts = append(alts, and(not(eq(app("i_tag", op), "0")), app("errors_is", op, x)))
 			}
 		}
@@ -125,7 +125,7 @@ func init() {
 		if in != nil {
 			if c, ok := in.Call.Args[0].(*ssa.Const); ok && c.Value != nil && c.Value.ExactString() == `"%v"` && len(args) > 1 && args[1].KLen == 2 {
 				h := e.arrHeap(types.NewInterfaceType(nil, nil))
-				op := sel(sel(st.H(h), app("s_arr", args[1].T)), app("s_off", args[1].T))
+				op := sel(sel(st.H(h), app("s_arr", args[1].T)), app("sidx", app("s_off", args[1].T), "0"))
 				strTag := e.tagOf(types.Typ[types.String])
 				e.assume(implies(eq(app("i_tag", op), itoa(strTag)), eq(res, e.unbox(types.Typ[types.String], app("i_val", op)))))
 			}
@@ -139,7 +139,7 @@ func init() {
 		res := e.freshConst(hname(f, in, "join"), "Str")
 		h := e.arrHeap(types.Typ[types.String])
 		s := args[0].T
-		el := func(i string) string { return sel(sel(st.H(h), app("s_arr", s)), app("+", app("s_off", s), i)) }
+		el := func(i string) string { return sel(sel(st.H(h), app("s_arr", s)), app("sidx", app("s_off", s), i)) }
 		e.assume(implies(eq(app("s_len", s), "0"), eq(res, "str_empty")))
 		e.assume(implies(eq(app("s_len", s), "1"), eq(res, el("0"))))
 		e.assume(implies(eq(app("s_len", s), "2"), eq(res, app("str_cat", app("str_cat", el("0"), args[1].T), el("1")))))
